@@ -267,7 +267,8 @@ def cmd_check(pid, tier, seed, opts):
         c0 = CONTRACTS.get(key)
         if c0 is None or getattr(c0, "gen_large", None) is None or (key in C and C[key].get("failures")):
             continue
-        if r.get("status") in ("stale", "outside-subset") or any(o["result"] == "unknown" for o in r.get("obligations", [])):
+        if r.get("status") in ("stale", "outside-subset") or any(
+                o["result"] == "unknown" or (o["kind"] == "reach" and o["result"] != "unsat") for o in r.get("obligations", [])):
             esc.append(key)
     if esc:
         pool2 = mp.get_context("fork").Pool(min(nproc, len(esc)), maxtasksperchild=1)
